@@ -84,3 +84,23 @@ def run_chunk(args):
         ev = family(isa, rng, b)
         traces.append({"kind": "c05", "m": "%s/%s" % (isa_name, mode), "maxlen": isa.maxlen, "src": src, "ev": ev})
     return {"isa": isa_name, "mode": mode, "maxlen": isa.maxlen, "traces": traces}
+
+
+def replay_family(args):
+    """re-execute the recorded inputs of one family, in order, on the current tree (./check C05 --replay)"""
+    isa_name, mode, inputs, whats = args
+    D.watchdog_init()
+    D.mute_stdout()
+    isa = D.Isa(isa_name, mode)
+    D.quiet()
+    ev = []
+    for hx, what in zip(inputs, whats):
+        x = bytes.fromhex(hx)
+        i, o = D.decode(isa, x)
+        e = {"in": list(x), "out": o, "what": what}
+        if i is not None:
+            e["sp"] = " ".join(i.spec.format.split())
+            h = i.spec.hook
+            e["hook"] = "%s:%s" % (h.__module__.replace("amoco.arch.", ""), h.__name__)
+        ev.append(e)
+    return {"kind": "c05", "m": "%s/%s" % (isa_name, mode), "maxlen": isa.maxlen, "src": "replay", "ev": ev}
